@@ -129,10 +129,12 @@ def nontrivial(steps, off, suf, outcome):
     return outcome == "forbidden" or (steps >= 1 and (off != "" or suf != ""))
 
 
-def t_exhaustive(shard, nshards):
+def t_exhaustive(shard, nshards, depth=3):
     stats = Stats()
     n = 0
     bases = [()] + [(a,) for a in TOKS] + list(itertools.product(TOKS, repeat=2)) + list(itertools.product(TOKS, repeat=3))
+    if depth >= 4:
+        bases += list(itertools.product(TOKS, repeat=4))
     for i, base in enumerate(bases):
         if i % nshards != shard:
             continue
@@ -145,7 +147,7 @@ def t_exhaustive(shard, nshards):
                     stats.cls("x:" + out)
                     if nontrivial(steps, off, suf, out) and out != "unjudged":
                         stats.nt("x", repr(base), rel)
-    stats.subspaces.append({"name": "bases depth 0-3 over 9 tokens x steps 0..depth+1 x 9 offsets x 8 suffixes, shard %d/%d" % (shard, nshards),
+    stats.subspaces.append({"name": "bases depth 0-%d over 9 tokens x steps 0..depth+1 x 9 offsets x 8 suffixes, shard %d/%d" % (depth, shard, nshards),
                             "size": n, "exhaustive": True})
     stats.sample({"base": P.encode(base), "relative": rel})
     return stats
@@ -198,7 +200,10 @@ def t_syntax():
 
 
 def tasks(tier, seed):
-    ts = [{"name": "exhaustive-%d" % k, "fn": "t_exhaustive", "kw": {"shard": k, "nshards": 14}} for k in range(14)]
+    if tier == "quick":
+        ts = [{"name": "exhaustive-%d" % k, "fn": "t_exhaustive", "kw": {"shard": k, "nshards": 14}} for k in range(14)]
+    else:
+        ts = [{"name": "exhaustive4-%d" % k, "fn": "t_exhaustive", "kw": {"shard": k, "nshards": 64, "depth": 4}} for k in range(64)]
     ts.append({"name": "syntax", "fn": "t_syntax"})
     n = 4000 if tier == "quick" else 60000
     for k in range(4):
